@@ -1105,6 +1105,18 @@ func (m *lexerModel) aheadField() *types.Var {
 	if m.readChar == nil {
 		return nil
 	}
+	// from the summary of readChar's paths (helpers inlined): the field the input is indexed with
+	if m.w != nil {
+		if lm := m.w.lexSSA(); lm != nil && lm.readChar != nil {
+			if sum := lm.readCharSummary(); sum.aheadIdx >= 0 {
+				if rc := lm.readChar.Signature.Recv(); rc != nil {
+					if st, ok := deref(rc.Type()).Underlying().(*types.Struct); ok && sum.aheadIdx < st.NumFields() {
+						return st.Field(sum.aheadIdx)
+					}
+				}
+			}
+		}
+	}
 	inspectBody(m.readChar.Decl.Body, false, func(n ast.Node) bool {
 		if ix, ok := n.(*ast.IndexExpr); ok {
 			if _, fld := fieldOf(m.info, ix.X); fld == m.input {
